@@ -639,4 +639,320 @@ theorem denParts_append {L p0 p1 xs ys} (h0 : DenParts L p0 xs) (h1 : DenParts L
 theorem den_arr_nil (L : Option Nat) : Den L (.arr []) [] := by
   simpa using den_arr L []
 
+
+/-! ### with_count, windows, repeat -/
+
+/-- `with_count` on a list of items -/
+def wcItems (eq : V → V → Bool) : List (V × Nat) → List Item → List Item
+  | _, [] => []
+  | seen, x :: xs =>
+    match x with
+    | .viol => .viol :: wcItems eq seen xs
+    | .err => .err :: wcItems eq seen xs
+    | .val v => .val (.tup [v, .int (bump eq v seen).1]) :: wcItems eq (bump eq v seen).2 xs
+
+theorem outs_withCount (L : Option Nat) (eq : V → V → Bool) :
+    ∀ n it seen, outs L n (.withCount it eq seen) = wcItems eq seen (outs L n it) := by
+  intro n
+  induction n with
+  | zero => intro it seen; simp [outs, wcItems]
+  | succ n ih =>
+    intro it seen
+    simp only [outs]
+    rw [step]
+    cases h : step L it with
+    | done => simp [wcItems]
+    | skip s => simp [ih]
+    | «yield» x s => cases x <;> simp [wcItems, ih]
+
+/-- sliding windows of width `size` over a list of items, `mem` being the elements already held -/
+def winItems (size : Nat) : List V → List Item → List Item
+  | _, [] => []
+  | mem, x :: xs =>
+    match x with
+    | .val v =>
+      if (mem ++ [v]).length == size then .val (.seq (mem ++ [v])) :: winItems size (mem ++ [v]).tail xs
+      else winItems size (mem ++ [v]) xs
+    | x => x :: winItems size mem xs
+
+theorem outs_windows (L : Option Nat) (size : Nat) :
+    ∀ n it mem perm, Permits.covers perm (outs L n it).length →
+      outs L n (.windows it size mem perm) = winItems size mem (outs L n it) := by
+  intro n
+  induction n with
+  | zero => intro it mem perm _; simp [outs, winItems]
+  | succ n ih =>
+    intro it mem perm hc
+    simp only [outs] at hc ⊢
+    rw [step]
+    cases h : step L it with
+    | done => simp [winItems]
+    | skip s => simp only [h] at hc; simp [ih s mem perm hc]
+    | «yield» x s =>
+      simp only [h, List.length_cons] at hc
+      obtain ⟨perm', hn, hc'⟩ := covers_next_ok hc
+      simp only [hn]
+      cases x with
+      | viol => simp [winItems, ih s mem perm' hc']
+      | err => simp [winItems, ih s mem perm' hc']
+      | val v =>
+        simp only [winItems]
+        by_cases hl : ((mem ++ [v]).length == size) = true
+        · simp only [hl, ↓reduceIte, ih s _ perm' hc']
+        · simp only [hl, Bool.false_eq_true, ↓reduceIte, ih s _ perm' hc']
+
+/-- one pass of `repeat`: while the pass runs the repetition is the pass; when the pass ends after having
+yielded something, the next pass starts from the generator value again -/
+theorem repeat_pass (L : Option Nat) (g : G) : ∀ n cur fresh xs,
+    after L n cur = none → outs L n cur = xs →
+      ∃ k, outs L k (.repeat_ g cur fresh) = xs ∧
+        after L k (.repeat_ g cur fresh) =
+          (if fresh && xs.isEmpty then none else some (.repeat_ g (g.start L) true)) := by
+  intro n
+  induction n with
+  | zero => intro cur fresh xs h; simp [after] at h
+  | succ n ih =>
+    intro cur fresh xs h ho
+    simp only [after] at h
+    simp only [outs] at ho
+    cases hs : step L cur with
+    | done =>
+      simp only [hs] at ho
+      subst ho
+      refine ⟨1, ?_, ?_⟩
+      · simp only [outs]; rw [step]; simp only [hs]; cases fresh <;> simp [outs]
+      · simp only [after]; rw [step]; simp only [hs]; cases fresh <;> simp [after]
+    | skip s =>
+      simp only [hs] at h ho
+      obtain ⟨k, hk1, hk2⟩ := ih s fresh xs h ho
+      refine ⟨k + 1, ?_, ?_⟩
+      · simp only [outs]; rw [step]; simp [hs, hk1]
+      · simp only [after]; rw [step]; simp [hs, hk2]
+    | «yield» x s =>
+      simp only [hs] at h ho
+      cases xs with
+      | nil => simp at ho
+      | cons x' xs' =>
+        simp only [List.cons.injEq] at ho
+        obtain ⟨k, hk1, hk2⟩ := ih s false xs' h ho.2
+        refine ⟨k + 1, ?_, ?_⟩
+        · simp only [outs]; rw [step]; simp [hs, hk1, ho.1]
+        · simp only [after]; rw [step]; simp [hs, hk2]
+
+/-- the repetition of a generator that denotes a non-empty finite list yields that list again and again:
+every pass sees the same elements -/
+theorem repeat_cycles (L : Option Nat) (g : G) (xs : List Item) (h : Den L (g.start L) xs) (hne : xs ≠ []) :
+    ∀ m, ∃ k, outs L k (.repeat_ g (g.start L) true) = (List.replicate m xs).flatten ∧
+      after L k (.repeat_ g (g.start L) true) = some (.repeat_ g (g.start L) true) := by
+  obtain ⟨n, hn, hx⟩ := h
+  intro m
+  induction m with
+  | zero => exact ⟨0, by simp [outs], by simp [after]⟩
+  | succ m ih =>
+    obtain ⟨k, hk1, hk2⟩ := ih
+    obtain ⟨j, hj1, hj2⟩ := repeat_pass L g n (g.start L) true xs hn hx
+    have hemp : xs.isEmpty = false := by cases xs <;> simp_all
+    simp only [hemp, Bool.and_false, Bool.false_eq_true, ↓reduceIte] at hj2
+    refine ⟨k + j, ?_, ?_⟩
+    · rw [outs_add, hk1, hk2]; simp only [hj1, List.replicate_succ']; simp
+    · rw [after_add, hk2]; simpa using hj2
+
+/-- the repetition of an empty generator is empty (it used to spin: 44f5035) -/
+theorem repeat_empty (L : Option Nat) (g : G) (h : Den L (g.start L) []) :
+    Den L (.repeat_ g (g.start L) true) [] := by
+  obtain ⟨n, hn, hx⟩ := h
+  obtain ⟨k, hk1, hk2⟩ := repeat_pass L g n (g.start L) true [] hn hx
+  exact ⟨k, by simpa using hk2, hk1⟩
+
+
+/-! ### zip: one round -/
+
+/-- `j` consecutive skips lead from `it` to `it'` -/
+def skipsTo (L : Option Nat) : Nat → It → It → Prop
+  | 0, it, it' => it = it'
+  | n + 1, it, it' => ∃ s, step L it = .skip s ∧ skipsTo L n s it'
+
+/-- an adaptor that passes the skips of its source on runs in lock-step through them -/
+theorem run_congr (L : Option Nat) (C : It → It)
+    (hC : ∀ it s, step L it = .skip s → step L (C it) = .skip (C s)) :
+    ∀ j it it', skipsTo L j it it' → ∀ F,
+      outs L (j + F) (C it) = outs L F (C it') ∧ after L (j + F) (C it) = after L F (C it') := by
+  intro j
+  induction j with
+  | zero => intro it it' h F; simp only [skipsTo] at h; subst h; simp
+  | succ j ih =>
+    intro it it' h F
+    obtain ⟨s, hs, hr⟩ := h
+    rw [show j + 1 + F = (j + F) + 1 by omega]
+    simp only [outs, after, hC it s hs]
+    exact ih s it' hr F
+
+/-- the element a round of a two-part zip yields -/
+def pairItem : Item → Item → Item
+  | .val a, .val b => .val (.tup [a, b])
+  | _, _ => .err
+
+theorem step_zip_skip (L : Option Nat) (rest pulled : List It) (acc : List V) (bad : Bool) (it s : It)
+    (hs : step L it = .skip s) :
+    step L (.zip (it :: rest) pulled acc bad) = .skip (.zip (s :: rest) pulled acc bad) := by
+  rw [step]; simp [hs]
+
+/-- one round of `zip(a, b)`: whatever the two parts yield next — values or error values — the round takes
+exactly one element from each and yields the pair (or the error): the parts stay aligned (182c226) -/
+theorem zip_round (L : Option Nat) (a a1 a' b b1 b' : It) (ja jb : Nat) (x y : Item)
+    (ha : skipsTo L ja a a1) (hxa : step L a1 = .yield x a') (hx : x ≠ .viol)
+    (hb : skipsTo L jb b b1) (hyb : step L b1 = .yield y b') (hy : y ≠ .viol) :
+    outs L (ja + (1 + (jb + 1))) (.zip [a, b] [] [] false) = [pairItem x y] ∧
+    after L (ja + (1 + (jb + 1))) (.zip [a, b] [] [] false) = some (.zip [a', b'] [] [] false) := by
+  have h1 := run_congr L (fun c => It.zip (c :: [b]) [] [] false)
+    (fun it s hs => step_zip_skip L [b] [] [] false it s hs) ja a a1 ha (1 + (jb + 1))
+  rw [h1.1, h1.2]
+  have hstep1 : ∃ acc' bad', step L (.zip [a1, b] [] [] false) = .skip (.zip [b] [a'] acc' bad') ∧
+      ((∃ v, x = .val v ∧ acc' = [v] ∧ bad' = false) ∨ (x = .err ∧ acc' = [] ∧ bad' = true)) := by
+    rw [step]; simp only [hxa]
+    cases x with
+    | viol => exact absurd rfl hx
+    | err => exact ⟨[], true, rfl, Or.inr ⟨rfl, rfl, rfl⟩⟩
+    | val v => exact ⟨[v], false, rfl, Or.inl ⟨v, rfl, rfl, rfl⟩⟩
+  obtain ⟨acc', bad', hs1, hcase⟩ := hstep1
+  rw [show 1 + (jb + 1) = (jb + 1) + 1 by omega]
+  have e1 : outs L ((jb + 1) + 1) (.zip [a1, b] [] [] false) = outs L (jb + 1) (.zip [b] [a'] acc' bad') := by
+    rw [outs, hs1]
+  have e2 : after L ((jb + 1) + 1) (.zip [a1, b] [] [] false) = after L (jb + 1) (.zip [b] [a'] acc' bad') := by
+    rw [after, hs1]
+  rw [e1, e2]
+  have h2 := run_congr L (fun c => It.zip [c] [a'] acc' bad')
+    (fun it s hs => step_zip_skip L [] [a'] acc' bad' it s hs) jb b b1 hb 1
+  rw [h2.1, h2.2]
+  have hstep2 : step L (.zip [b1] [a'] acc' bad') = .yield (pairItem x y) (.zip [a', b'] [] [] false) := by
+    rw [step]; simp only [hyb]
+    rcases hcase with ⟨v, rfl, rfl, rfl⟩ | ⟨rfl, rfl, rfl⟩
+    · cases y with
+      | viol => exact absurd rfl hy
+      | err => simp [pairItem]
+      | val w => simp [pairItem]
+    · cases y with
+      | viol => exact absurd rfl hy
+      | err => simp [pairItem]
+      | val w => simp [pairItem]
+  simp [outs, after, hstep2]
+
+/-- a round ends the zip as soon as a part has ended, without pulling the parts behind it -/
+theorem zip_ends_first (L : Option Nat) (a a1 b : It) (ja : Nat)
+    (ha : skipsTo L ja a a1) (hda : step L a1 = .done) :
+    outs L (ja + 1) (.zip [a, b] [] [] false) = [] ∧ after L (ja + 1) (.zip [a, b] [] [] false) = none := by
+  have h1 := run_congr L (fun c => It.zip (c :: [b]) [] [] false)
+    (fun it s hs => step_zip_skip L [b] [] [] false it s hs) ja a a1 ha 1
+  rw [h1.1, h1.2]
+  have : step L (.zip [a1, b] [] [] false) = .done := by rw [step]; simp [hda]
+  simp [outs, after, this]
+
+
+/-! ### group -/
+
+/-- `group` on a list of items: what is yielded while the source runs, and the group still open at its end -/
+def grpRun (eq : P2) : List V → List Item → List Item × List V
+  | cur, [] => ([], cur)
+  | cur, x :: xs =>
+    match x with
+    | .val v =>
+      match cur with
+      | [] => grpRun eq [v] xs
+      | k :: ks =>
+        match eq (.val k) (.val v) with
+        | .t => grpRun eq (k :: ks ++ [v]) xs
+        | .f => (.val (.seq (k :: ks)) :: (grpRun eq [v] xs).1, (grpRun eq [v] xs).2)
+        | .err => (.err :: (grpRun eq (k :: ks) xs).1, (grpRun eq (k :: ks) xs).2)
+        | .viol => (.viol :: (grpRun eq (k :: ks) xs).1, (grpRun eq (k :: ks) xs).2)
+    | .err => (.err :: (grpRun eq cur xs).1, (grpRun eq cur xs).2)
+    | .viol => (.viol :: (grpRun eq cur xs).1, (grpRun eq cur xs).2)
+
+/-- the last group is flushed when the source ends -/
+def flushGroup : List V → List Item
+  | [] => []
+  | c => [.val (.seq c)]
+
+theorem den_group (L : Option Nat) (eq : P2) : ∀ n it cur perm xs,
+    after L n it = none → outs L n it = xs → Permits.covers perm (xs.length + 1) →
+      Den L (.group it eq cur perm false) ((grpRun eq cur xs).1 ++ flushGroup (grpRun eq cur xs).2) := by
+  intro n
+  induction n with
+  | zero => intro it cur perm xs h; simp [after] at h
+  | succ n ih =>
+    intro it cur perm xs h ho hc
+    simp only [after] at h
+    simp only [outs] at ho
+    cases hs : step L it with
+    | done =>
+      simp only [hs] at ho
+      subst ho
+      obtain ⟨perm', hn, _⟩ := covers_next_ok (m := 0) (by simpa using hc)
+      cases cur with
+      | nil =>
+        refine ⟨1, ?_, ?_⟩
+        · simp only [after]; rw [step]; simp [hs, hn]
+        · simp only [outs]; rw [step]; simp [hs, hn, grpRun, flushGroup]
+      | cons c cs =>
+        refine ⟨2, ?_, ?_⟩
+        · simp only [after]; rw [step]; simp only [hs, hn, Bool.false_eq_true, ↓reduceIte]; rw [step]; simp
+        · simp only [outs]; rw [step]; simp only [hs, hn, Bool.false_eq_true, ↓reduceIte]; rw [step]
+          simp [grpRun, flushGroup]
+    | skip s =>
+      simp only [hs] at h ho
+      obtain ⟨m, hm1, hm2⟩ := ih s cur perm xs h ho hc
+      refine ⟨m + 1, ?_, ?_⟩
+      · simp only [after]; rw [step]; simp [hs, hm1]
+      · simp only [outs]; rw [step]; simp [hs, hm2]
+    | «yield» x s =>
+      simp only [hs] at h ho
+      cases xs with
+      | nil => simp at ho
+      | cons x' xs' =>
+        simp only [List.cons.injEq] at ho
+        obtain ⟨hx, ho⟩ := ho
+        subst hx
+        simp only [List.length_cons] at hc
+        obtain ⟨perm', hn, hc'⟩ := covers_next_ok hc
+        cases x with
+        | viol =>
+          obtain ⟨m, hm1, hm2⟩ := ih s cur perm' xs' h ho hc'
+          refine ⟨m + 1, ?_, ?_⟩
+          · simp only [after]; rw [step]; simp [hs, hn, hm1]
+          · simp only [outs]; rw [step]; simp [hs, hn, hm2, grpRun]
+        | err =>
+          obtain ⟨m, hm1, hm2⟩ := ih s cur perm' xs' h ho hc'
+          refine ⟨m + 1, ?_, ?_⟩
+          · simp only [after]; rw [step]; simp [hs, hn, hm1]
+          · simp only [outs]; rw [step]; simp [hs, hn, hm2, grpRun]
+        | val v =>
+          cases cur with
+          | nil =>
+            obtain ⟨m, hm1, hm2⟩ := ih s [v] perm' xs' h ho hc'
+            refine ⟨m + 1, ?_, ?_⟩
+            · simp only [after]; rw [step]; simp [hs, hn, hm1]
+            · simp only [outs]; rw [step]; simp [hs, hn, hm2, grpRun]
+          | cons k ks =>
+            cases he : eq (.val k) (.val v) with
+            | t =>
+              obtain ⟨m, hm1, hm2⟩ := ih s (k :: ks ++ [v]) perm' xs' h ho hc'
+              simp only [List.cons_append] at hm1 hm2
+              refine ⟨m + 1, ?_, ?_⟩
+              · simp only [after]; rw [step]; simp [hs, hn, he, hm1]
+              · simp only [outs]; rw [step]; simp [hs, hn, he, hm2, grpRun]
+            | f =>
+              obtain ⟨m, hm1, hm2⟩ := ih s [v] perm' xs' h ho hc'
+              refine ⟨m + 1, ?_, ?_⟩
+              · simp only [after]; rw [step]; simp [hs, hn, he, hm1]
+              · simp only [outs]; rw [step]; simp [hs, hn, he, hm2, grpRun]
+            | err =>
+              obtain ⟨m, hm1, hm2⟩ := ih s (k :: ks) perm' xs' h ho hc'
+              refine ⟨m + 1, ?_, ?_⟩
+              · simp only [after]; rw [step]; simp [hs, hn, he, hm1]
+              · simp only [outs]; rw [step]; simp [hs, hn, he, hm2, grpRun]
+            | viol =>
+              obtain ⟨m, hm1, hm2⟩ := ih s (k :: ks) perm' xs' h ho hc'
+              refine ⟨m + 1, ?_, ?_⟩
+              · simp only [after]; rw [step]; simp [hs, hn, he, hm1]
+              · simp only [outs]; rw [step]; simp [hs, hn, he, hm2, grpRun]
+
 end XrayModel.Gen
